@@ -870,3 +870,271 @@ Proof.
   destruct (exec_op w o root) as [root1 r]. simpl in H1.
   specialize (IH root1 p k v H1 F2). destruct (run_ops w root1 ops). exact IH.
 Qed.
+
+(* ------------------------------------------------------------------ *)
+(** * Cursor enumeration over a sorted bucket *)
+
+Lemma sorted_split {E} (l1 : list (bytes * E)) x l2 :
+  sorted_ents (l1 ++ x :: l2) ->
+  Forall (fun y => blt (fst y) (fst x)) l1 /\ Forall (fun y => blt (fst x) (fst y)) l2.
+Proof.
+  unfold sorted_ents, sorted_keys. induction l1 as [|a l1 IH]; simpl; intros HS.
+  - inversion HS as [|? ? S1 F1]; subst. split; [constructor|].
+    rewrite Forall_forall in *. intros y Hy. apply F1. apply in_map. exact Hy.
+  - inversion HS as [|? ? S1 F1]; subst. destruct (IH S1) as [I1 I2]. split; [|exact I2].
+    constructor; [|exact I1]. rewrite Forall_forall in F1. apply F1.
+    rewrite map_app. apply in_or_app. right. left. reflexivity.
+Qed.
+
+Lemma find_app_none {A} (f : A -> bool) l1 l2 :
+  Forall (fun x => f x = false) l1 -> find f (l1 ++ l2) = find f l2.
+Proof.
+  induction 1 as [|x l1 Hx _ IH]; simpl; [reflexivity|]. rewrite Hx. exact IH.
+Qed.
+
+Lemma first_gt_split l1 k (e : ent) l2 :
+  sorted_ents (l1 ++ (k, e) :: l2) ->
+  first_gt k (l1 ++ (k, e) :: l2) = hd_error l2.
+Proof.
+  intros HS. destruct (sorted_split _ _ _ HS) as [F1 F2]. unfold first_gt.
+  rewrite find_app_none.
+  - simpl. rewrite bltb_irrefl. destruct l2 as [|y l2]; [reflexivity|]. simpl.
+    inversion F2; subst. simpl in *.
+    assert (bltb k (fst y) = true) as -> by (apply bltb_lt; assumption). reflexivity.
+  - eapply Forall_impl; [|exact F1]. simpl. intros y Hy. apply bltb_asym. apply bltb_lt. exact Hy.
+Qed.
+
+Lemma last_opt_snoc {A} (l : list A) x : last_opt (l ++ [x]) = Some x.
+Proof.
+  induction l as [|a l IH]; simpl; [reflexivity|].
+  destruct (l ++ [x]) eqn:E; [destruct l; discriminate|exact IH].
+Qed.
+
+Lemma last_lt_split l1 k (e : ent) l2 :
+  sorted_ents (l1 ++ (k, e) :: l2) ->
+  last_lt k (l1 ++ (k, e) :: l2) = last_opt l1.
+Proof.
+  intros HS. destruct (sorted_split _ _ _ HS) as [F1 F2]. unfold last_lt. f_equal.
+  rewrite filter_app. simpl. rewrite bltb_irrefl.
+  assert (filter (fun ke : bytes * ent => bltb (fst ke) k) l2 = []) as ->.
+  { clear -F2. induction F2 as [|y l2 Hy _ IH]; simpl; [reflexivity|].
+    simpl in Hy. rewrite (bltb_asym k (fst y)) by (apply bltb_lt; exact Hy). exact IH. }
+  rewrite app_nil_r. clear -F1. induction F1 as [|y l1 Hy _ IH]; simpl; [reflexivity|].
+  simpl in Hy. apply bltb_lt in Hy. rewrite Hy. f_equal. exact IH.
+Qed.
+
+Definition seen (ke : bytes * ent) : cres := CKV (Some (obs_ent ke)).
+
+Lemma scan_next w l2 : forall l1 k e l,
+  l = l1 ++ (k, e) :: l2 -> sorted_ents l ->
+  cursor_run w (l, PAt k) (repeat CNext (S (length l2))) = (l, map seen l2 ++ [CKV None]).
+Proof.
+  induction l2 as [|[k' e'] l2 IH]; intros l1 k e l -> HS.
+  - simpl repeat. rewrite cursor_run_cons. unfold cursor_step.
+    rewrite (first_gt_split _ _ _ _ HS). simpl. reflexivity.
+  - change (repeat CNext (S (length ((k', e') :: l2))))
+      with (CNext :: repeat CNext (S (length l2))).
+    rewrite cursor_run_cons. unfold cursor_step.
+    rewrite (first_gt_split _ _ _ _ HS). simpl hd_error. unfold at_ent. simpl fst.
+    rewrite (IH (l1 ++ [(k, e)]) k' e').
+    + reflexivity.
+    + rewrite <- app_assoc. reflexivity.
+    + exact HS.
+Qed.
+
+Lemma forward_scan w l :
+  sorted_ents l ->
+  cursor_run w (l, PNone) (CFirst :: repeat CNext (length l)) = (l, map seen l ++ [CKV None]).
+Proof.
+  intros HS. destruct l as [|[k e] l2].
+  - reflexivity.
+  - rewrite cursor_run_cons. simpl cursor_step. unfold at_ent. simpl fst.
+    rewrite (scan_next w l2 [] k e); [reflexivity|reflexivity|exact HS].
+Qed.
+
+Lemma scan_prev w l1 : forall l2 k e l,
+  l = l1 ++ (k, e) :: l2 -> sorted_ents l ->
+  cursor_run w (l, PAt k) (repeat CPrev (S (length l1))) = (l, map seen (rev l1) ++ [CKV None]).
+Proof.
+  induction l1 as [|[k' e'] l1 IH] using rev_ind; intros l2 k e l -> HS.
+  - simpl repeat. rewrite cursor_run_cons. unfold cursor_step.
+    rewrite (last_lt_split _ _ _ _ HS). simpl. reflexivity.
+  - rewrite app_length. simpl length. rewrite Nat.add_1_r.
+    change (repeat CPrev (S (S (length l1)))) with (CPrev :: repeat CPrev (S (length l1))).
+    rewrite cursor_run_cons. unfold cursor_step.
+    rewrite (last_lt_split _ _ _ _ HS), last_opt_snoc. unfold at_ent. simpl fst.
+    rewrite (IH ((k, e) :: l2) k' e').
+    + rewrite rev_unit. reflexivity.
+    + rewrite <- app_assoc. reflexivity.
+    + exact HS.
+Qed.
+
+Lemma backward_scan w l :
+  sorted_ents l ->
+  cursor_run w (l, PNone) (CLast :: repeat CPrev (length l)) = (l, map seen (rev l) ++ [CKV None]).
+Proof.
+  intros HS. destruct l as [|a l0] using rev_ind.
+  - reflexivity.
+  - clear IHl0. destruct a as [k e].
+    rewrite cursor_run_cons. unfold cursor_step. rewrite last_opt_snoc. unfold at_ent. simpl fst.
+    rewrite app_length. simpl length. rewrite Nat.add_1_r.
+    rewrite (scan_prev w l0 [] k e); [|reflexivity|exact HS].
+    rewrite rev_unit. reflexivity.
+Qed.
+
+(** Seek k returns the least entry whose name is not below k, if any. *)
+Lemma first_ge_spec k (l : list (bytes * ent)) :
+  sorted_ents l ->
+  match first_ge k l with
+  | Some ke => In ke l /\ bltb (fst ke) k = false /\
+               forall ke', In ke' l -> bltb (fst ke') k = false -> ke' = ke \/ blt (fst ke) (fst ke')
+  | None => forall ke', In ke' l -> bltb (fst ke') k = true
+  end.
+Proof.
+  unfold first_ge. induction l as [|a l IH]; intros HS; simpl.
+  - intros ke' [].
+  - assert (sorted_ents l) as HS' by (unfold sorted_ents, sorted_keys in *; simpl in HS; inversion HS; assumption).
+    destruct (bltb (fst a) k) eqn:B; simpl.
+    + specialize (IH HS'). destruct (find _ l) as [ke|].
+      * destruct IH as (I1 & I2 & I3). repeat split; auto.
+        intros ke' [<-|H] Hk; [congruence|auto].
+      * intros ke' [<-|H]; auto.
+    + repeat split; auto. intros ke' [<-|H] Hk; [auto|right].
+      destruct (sorted_split [] a l HS) as [_ F]. rewrite Forall_forall in F. apply F. exact H.
+Qed.
+
+Lemma seek_step w l p k :
+  cursor_step w (l, p) (CSeek k) =
+  match first_ge k l with
+  | Some ke => (l, PAt (fst ke), seen ke)
+  | None => (l, PEnd, CKV None)
+  end.
+Proof. reflexivity. Qed.
+
+(** The forward enumeration is strictly ascending. *)
+Lemma seen_sorted (l : list (bytes * ent)) :
+  sorted_ents l -> StronglySorted blt (map fst (map obs_ent l)).
+Proof. unfold sorted_ents, sorted_keys. rewrite map_map. simpl. auto. Qed.
+
+(** Lifted to a transaction: a full forward / backward walk of the bucket at
+    path p reports exactly the bucket's entries, and leaves the tree alone. *)
+Lemma exec_op_forward_scan w p root b :
+  wf root -> at_path p root = Some b ->
+  exec_op w (p, Cursor (CFirst :: repeat CNext (length (bents b)))) root =
+  (root, RCur (map seen (bents b) ++ [CKV None])).
+Proof.
+  intros W A. unfold exec_op. cbn [fst snd]. rewrite A. unfold exec_bop.
+  rewrite forward_scan by (apply (W p b A)).
+  destruct b as [s l]. simpl. f_equal. apply modify_id. exact A.
+Qed.
+
+Lemma exec_op_backward_scan w p root b :
+  wf root -> at_path p root = Some b ->
+  exec_op w (p, Cursor (CLast :: repeat CPrev (length (bents b)))) root =
+  (root, RCur (map seen (rev (bents b)) ++ [CKV None])).
+Proof.
+  intros W A. unfold exec_op. cbn [fst snd]. rewrite A. unfold exec_bop.
+  rewrite backward_scan by (apply (W p b A)).
+  destruct b as [s l]. simpl. f_equal. apply modify_id. exact A.
+Qed.
+
+Lemma exec_op_foreach w p root b :
+  at_path p root = Some b ->
+  exec_op w (p, ForEach) root = (root, REnts (map obs_ent (bents b))).
+Proof.
+  intros A. unfold exec_op. cbn [fst snd]. rewrite A. simpl. f_equal. apply modify_id. exact A.
+Qed.
+
+(* ------------------------------------------------------------------ *)
+(** * Transactions *)
+
+Lemma update_failed s body o s' rs o' :
+  update s body o = Some (s', rs, o') -> o <> OOk ->
+  committed s' = committed s /\ writer s' = false /\ o' = o.
+Proof.
+  unfold update, begin_rw. destruct (writer s); [discriminate|].
+  destruct (run_ops true (committed s) body) as [w1 rs1].
+  intros [= <- <- <-] N. destruct o; [contradiction| |]; simpl; auto.
+Qed.
+
+Lemma update_committed s body s' rs o' :
+  update s body OOk = Some (s', rs, o') ->
+  committed s' = normalize (fst (run_ops true (committed s) body)) /\
+  rs = snd (run_ops true (committed s) body) /\ writer s' = false /\ o' = OOk.
+Proof.
+  unfold update, begin_rw. destruct (writer s); [discriminate|].
+  destruct (run_ops true (committed s) body) as [w1 rs1].
+  intros [= <- <- <-]. simpl. auto.
+Qed.
+
+Lemma update_runs s body o :
+  writer s = false -> exists s' rs, update s body o = Some (s', rs, o) /\ writer s' = false.
+Proof.
+  intros W. unfold update, begin_rw. rewrite W.
+  destruct (run_ops true (committed s) body) as [w1 rs1].
+  eexists _, _. split; [reflexivity|]. destruct o; reflexivity.
+Qed.
+
+Lemma run_tx_runs s k body :
+  writer s = false ->
+  exists s' rs o, run_tx s k body = Some (s', rs, o) /\ writer s' = false.
+Proof.
+  intros W. destruct k as [o|o|c|]; simpl.
+  - destruct (update_runs s body o W) as (s' & rs & H1 & H2). eauto.
+  - unfold view. eauto.
+  - destruct (update_runs s body (if c then OOk else OErr) W) as (s' & rs & H1 & H2). eauto.
+  - unfold view. eauto.
+Qed.
+
+Lemma run_txs_runs txs : forall s,
+  writer s = false -> exists s' rss, run_txs s txs = Some (s', rss) /\ writer s' = false.
+Proof.
+  induction txs as [|[k body] txs IH]; intros s W; simpl.
+  - eauto.
+  - destruct (run_tx_runs s k body W) as (s1 & rs & o & H1 & W1). rewrite H1.
+    destruct (IH s1 W1) as (s2 & rss & H2 & W2). rewrite H2. eauto.
+Qed.
+
+Lemma view_unchanged s body o : fst (fst (view s body o)) = s.
+Proof. reflexivity. Qed.
+
+(** What is reachable: committed trees are well formed and already normal. *)
+Definition good (s : dbstate) : Prop :=
+  wf (committed s) /\ normalize (committed s) = committed s.
+
+Lemma good_init : good init_db.
+Proof. split; [apply wf_empty|reflexivity]. Qed.
+
+Lemma run_tx_good s k body s' rs o :
+  good s -> run_tx s k body = Some (s', rs, o) -> good s'.
+Proof.
+  intros [W Nm] H.
+  assert (forall o0 s1 rs1 o1, update s body o0 = Some (s1, rs1, o1) -> good s1) as U.
+  { intros o0 s1 rs1 o1. unfold update, begin_rw. destruct (writer s); [discriminate|].
+    pose proof (run_ops_wf true body (committed s) W) as W1.
+    destruct (run_ops true (committed s) body) as [w1 rs0]. simpl in W1.
+    intros [= <- <- <-]. destruct o0; simpl; split; simpl; auto using wf_normalize, normalize_idem. }
+  destruct k as [o0|o0|c|]; simpl in H; eauto; injection H as <- _ _; split; assumption.
+Qed.
+
+Lemma run_txs_good txs : forall s s' rss,
+  good s -> run_txs s txs = Some (s', rss) -> good s'.
+Proof.
+  induction txs as [|[k body] txs IH]; intros s s' rss G H; simpl in H.
+  - injection H as <- _. exact G.
+  - destruct (run_tx s k body) as [[[s1 rs] o]|] eqn:T; [|discriminate].
+    destruct (run_txs s1 txs) as [[s2 rss2]|] eqn:R; [|discriminate].
+    injection H as <- _. eapply IH; [|exact R]. eapply run_tx_good; eauto.
+Qed.
+
+(** After commit every name bound in the working copy is bound (nil read as
+    empty), every other name is unbound: all changes, together. *)
+Definition lookup (p : path) (k : bytes) (root : bkt) : option ent :=
+  match at_path p root with Some b => ent_get k (bents b) | None => None end.
+
+Lemma lookup_normalize p k root :
+  lookup p k (normalize root) = option_map norm_ent (lookup p k root).
+Proof.
+  unfold lookup. rewrite at_path_normalize. destruct (at_path p root) as [b|]; simpl; [|reflexivity].
+  apply get_normalize.
+Qed.
